@@ -235,7 +235,48 @@ func execConvRT(a []string) string {
 	return "ok " + renderGo(dst.Elem()) + " back " + renderGo(back.Elem())
 }
 
+// convre <source type> | <target type> | <value 1> | <value 2>
+// the destination (and the destination of the way back) is used twice: what it held after the first
+// conversion must not show in the second
+func execConvReuse(a []string) string {
+	p := splitBar(a)
+	st, _ := parseGType(p[0])
+	tt, _ := parseGType(p[1])
+	dst := reflect.New(tt.rtype())
+	back := reflect.New(st.rtype())
+	res := ""
+	for _, vs := range p[2:4] {
+		src, _ := parseGVal(st, vs)
+		if err := conversion.ConvertFrom(dst.Interface(), src.Interface()); err != nil {
+			return "err"
+		}
+		if err := conversion.ConvertFrom(back.Interface(), dst.Elem().Interface()); err != nil {
+			res = "ok " + renderGo(dst.Elem()) + " back err"
+			continue
+		}
+		res = "ok " + renderGo(dst.Elem()) + " back " + renderGo(back.Elem())
+	}
+	return res
+}
+
+func hasMap(t *gtype) bool {
+	switch t.kind {
+	case "{":
+		return true
+	case "[":
+		return hasMap(t.elem)
+	case "(":
+		for _, f := range t.fields {
+			if hasMap(f) {
+				return true
+			}
+		}
+	}
+	return false
+}
+
 func init() {
+	executors["convre"] = execConvReuse
 	executors["conv"] = func(a []string) string {
 		// Lean-side syntax is "conv T | v"; the Go side needs the source type too,
 		// carried as a third section that the driver ignores: conv T | v | S
@@ -525,6 +566,28 @@ func runC20(r *Rand, tier string, o *Out) {
 		st := genGType(r, depth, false)
 		val := genValTokens(r, st)
 		o.Count("src:" + st.kind)
+		if i%6 == 5 {
+			// a destination that is used again (a caller that keeps one result variable): the second
+			// conversion must give what a fresh destination gives.  Types without maps: a map that is
+			// converted into keeps its entries, which is what the package documents.
+			for tries := 0; hasMap(st) && tries < 50; tries++ {
+				st = genGType(r, depth, false)
+			}
+			if !hasMap(st) {
+				v1, v2 := genValTokens(r, st), genValTokens(r, st)
+				if len(v1) < len(v2) && r.Chance(70) {
+					v1, v2 = v2, v1 // the longer one first, most of the time
+				}
+				tt := compatTarget(r, st, o)
+				res := o.Do("P", fmt.Sprintf("convre %s | %s | %s | %s", st.tokens(), tt.tokens(), v1, v2), true)
+				want := func() string { v, _ := parseGVal(st, strings.Fields(v2)); return renderGo(v) }()
+				if !strings.HasSuffix(res, " back "+want) {
+					o.Fail("a destination used twice keeps what it held: "+st.kind, fmt.Sprintf("convre %s | %s | %s | %s => %s (want back %s)", st.tokens(), tt.tokens(), v1, v2, res, want))
+				}
+				o.Count("case:destination-reused")
+				continue
+			}
+		}
 		switch r.Intn(10) {
 		case 0, 1, 2, 3, 4, 5: // compatible: preserved and converting back recovers the source
 			tt := compatTarget(r, st, o)
